@@ -331,6 +331,72 @@ func runC10(p *core.Prog, r *core.Report) {
 				}
 				r.Check(ok1, "C10-R4", "scanner: one ArgValue assignment per consumed flag", p.FuncPos(scanner), "exactly one per trip around the loop", d1)
 				r.Check(ok2, "C10-R4", "scanner: every iteration consumes at least one token", p.FuncPos(scanner), "args advanced on every trip around the loop", d2)
+				// what is a flag is decided by dashes alone: the only bytes of the token the scanner compares with before it
+				// looks the name up are '-' and '='. A test of any other byte that can end the scan with success (digits are
+				// "negative numbers", say) makes defined flags unreachable and undefined ones silently positional
+				{
+					var lookups = map[ssa.Instruction]bool{}
+					fmF := fieldByName(c.FlagSet, "flagMap")
+					sx.Instrs(scanner, func(in ssa.Instruction) {
+						if lk, ok := in.(*ssa.Lookup); ok && fmF != nil && sx.Origins(lk.X)["field:FlagSet."+fmF.Name()] {
+							lookups[in] = true
+						}
+					})
+					var shape []string
+					sx.Instrs(scanner, func(in ssa.Instruction) {
+						b, ok := in.(*ssa.BinOp)
+						if !ok || b.Referrers() == nil {
+							return
+						}
+						var idxV, cst ssa.Value
+						for _, pr := range [][2]ssa.Value{{b.X, b.Y}, {b.Y, b.X}} {
+							switch pr[0].(type) {
+							case *ssa.Index, *ssa.Lookup:
+								idxV, cst = pr[0], pr[1]
+							}
+						}
+						if idxV == nil {
+							return
+						}
+						k, isC := sx.ConstInt(cst)
+						if !isC || k == '-' || k == '=' {
+							return
+						}
+						var base ssa.Value
+						switch x := idxV.(type) {
+						case *ssa.Index:
+							base = x.X
+						case *ssa.Lookup:
+							base = x.X
+						}
+						if !isStringT(base.Type()) || !sx.Origins(base)["field:FlagSet."+args.Name()] {
+							return
+						}
+						for _, u := range *b.Referrers() {
+							iff, ok := u.(*ssa.If)
+							if !ok {
+								continue
+							}
+							for si, succ := range iff.Block().Succs {
+								_ = si
+								if len(succ.Instrs) == 0 {
+									continue
+								}
+								for _, ret := range sx.Returns(scanner) {
+									for _, rc := range retCases(ret, len(ret.Results)-1) {
+										if !sx.IsNilConst(rc.Val) {
+											continue
+										}
+										if succ.Instrs[0] == rc.At || sx.ReachInstr(scanner, succ.Instrs[0], rc.At, sx.Cut{Blocks: map[*ssa.BasicBlock]bool{hdr: true}, Instrs: lookups}) {
+											shape = append(shape, fmt.Sprintf("the test of a token byte against %q at %s can end the scan with success before the name was looked up", rune(k), p.Pos(in.Pos())))
+										}
+									}
+								}
+							}
+						}
+					})
+					r.Check(len(shape) == 0, "C10-R4", "scanner: only '-' and '=' decide what is a flag", p.FuncPos(scanner), "no other byte of the token is tested on a path that stops the scan with success", strings.Join(uniq(shape), "; ")+": a defined flag whose name starts like that is never parsed, an undefined one is silently left among the positional arguments")
+				}
 				// a switch consumes only itself: once the flag's Value has answered "I am a boolean flag" (a bool method of
 				// an interface the Value is asserted to), nothing more is taken from args in that iteration
 				{
